@@ -35,7 +35,7 @@ func scalarFull(k ref.Kind, tier Tier) []*ref.Val {
 			ref.DoubleBits(0x7ff8000000000001), ref.DoubleBits(0xfff8dead0000beef), ref.DoubleBits(1),
 		}
 	case ref.KString:
-		r := []*ref.Val{ref.Str(""), ref.Str("a"), ref.Str("ab\x00"), ref.Str("\xff\xfe\x80 not utf-8")}
+		r := []*ref.Val{ref.Str(""), ref.Str("a"), ref.Str("\xe9"), ref.Str("ab\x00"), ref.Str("\xff\xfe\x80 not utf-8")} // (one byte >= 0x80: not a rune)
 		for _, n := range strLens(tier) {
 			r = append(r, ref.Str(fill(n)))
 		}
